@@ -319,6 +319,8 @@ func checkC13(c *Ctx) {
 				if ac.Shallow {
 					if ar.Exit == 0 || ar.Stdout != "" {
 						why = append(why, "shallow_clone_measured")
+					} else if ar.Exit != 1 || !strings.HasPrefix(ar.Stderr, "error:") || strings.Contains(ar.Stderr, "panic:") {
+						why = append(why, "shallow_clone_not_refused_with_an_error_message")
 					}
 				} else {
 					if ar.Exit != 0 {
@@ -391,7 +393,7 @@ func replayAddr(c *Ctx, raw json.RawMessage) bool {
 		}
 		ar := e.runAddr(l, m, base, nil, 0)
 		if ac.Shallow {
-			return ar.Exit == 0 || ar.Stdout != ""
+			return ar.Exit != 1 || ar.Stdout != "" || !strings.HasPrefix(ar.Stderr, "error:") || strings.Contains(ar.Stderr, "panic:")
 		}
 		if ar.Exit != 0 || ar.Stdout != top.Stdout || len(logProblems(&ar, l, addrModes[i])) > 0 {
 			return true
